@@ -95,7 +95,13 @@ where
             if result.timed_out()
                 || (duration.as_secs() == 0 && duration.subsec_nanos() < 1_000_000)
             {
-                return None;
+                // giving up, but the wake-up may have been meant for an element (or an
+                // unblock) that is now in the queue: take it rather than leave it behind with
+                // its notification used up
+                return match queue.pop_front() {
+                    Some(Control::Elem(value)) => Some(value),
+                    Some(Control::Unblock) | None => None,
+                };
             }
         }
     }
